@@ -211,7 +211,23 @@ def camera_interleavings(ctx: Ctx) -> None:
                 got: list[Any] = []
                 cli.subscribe_states(got.append)
                 msgs = [pb.CameraImageResponse(key=k, data=d, done=dn) for k, d, dn in chunks]
-                send_stream(sim, dconn, msgs, [len(msgs)] if idx % 2 else [1] * len(msgs))
+                if idx % 3 == 0 and len(msgs) > 2:
+                    # the application talks to the device while images are in flight: the periodic keep-alive of a camera stream
+                    # (request_image_stream), a snapshot request, a command, another subscription - the transfer simply continues
+                    p = 1 + (idx // 3) % (len(msgs) - 1)
+                    send_stream(sim, dconn, msgs[:p], [1] * p)
+                    action = ("request_image_stream", "request_single_image", "switch_command", "subscribe_logs")[(idx // 3) % 4]
+                    res.count(f"camera_client_action_mid_transfer/{action}")
+                    if action == "switch_command":
+                        cli.switch_command(5, True)
+                    elif action == "subscribe_logs":
+                        cli.subscribe_logs(lambda m: None)
+                    else:
+                        getattr(cli, action)()
+                    sim.run_for(0.001)
+                    send_stream(sim, dconn, msgs[p:], [len(msgs) - p] if idx % 2 else [1] * (len(msgs) - p))
+                else:
+                    send_stream(sim, dconn, msgs, [len(msgs)] if idx % 2 else [1] * len(msgs))
                 res.evaluations += 1
                 res.count("workload/camera-interleaving")
                 res.count("camera_chunks_sent", len(chunks))
@@ -355,7 +371,7 @@ def voice_assistant(ctx: Ctx) -> None:
                 with Sim() as sim:
                     cli, dconn = session(sim, outside_loop=outside)
                     ev: list[tuple[str, Any]] = []
-                    gate = sim.loop.create_future()
+                    gates: list[Any] = []     # one per pending start handler (a handler task cancelled by the library takes only its own gate with it)
 
                     async def h_start(conv: str, flags: int, settings: Any, wake: Any) -> Any:
                         ev.append(("start", (conv, flags, wake)))
@@ -365,7 +381,9 @@ def voice_assistant(ctx: Ctx) -> None:
                             return None
                         if outcome == "raises":
                             raise ValueError("no server")
-                        await gate
+                        g_ = sim.loop.create_future()
+                        gates.append(g_)
+                        await g_
                         return 6000
 
                     async def h_stop(abort: bool) -> None:
@@ -402,10 +420,13 @@ def voice_assistant(ctx: Ctx) -> None:
                     if outcome == "pending-then-unsub":
                         unsub()
                         sim.run_for(0.001)
-                        if not gate.done():
-                            gate.set_result(None)   # the handler would now return a port: it must no longer be answered
+                        for g_ in gates:
+                            if not g_.done():
+                                g_.set_result(None)   # the handler would now return a port: it must no longer be answered
                     elif outcome == "pending-then-port":
-                        gate.set_result(None)
+                        for g_ in gates:
+                            if not g_.done():
+                                g_.set_result(None)
                     sim.run_for(0.01)
                     replies = [r["msg"] for r in dconn.received[n0:] if r["name"] == "VoiceAssistantResponse"]
                     res.evaluations += 1
@@ -436,7 +457,9 @@ def voice_assistant(ctx: Ctx) -> None:
                         if [(r.port, r.error) for r in replies] != [(0, True)] * n_start:
                             res.violation("C17/va/error-reply", f"replies {[(r.port, r.error) for r in replies]}, expected {n_start} error responses", case)
                     elif outcome == "pending-then-unsub":
-                        if replies:
+                        # (with two overlapping starts the library tracks - and cancels - only the newer handler; the older one completes and is
+                        #  answered, which the statement asks for: judged for a single pending start only)
+                        if replies and n_start == 1:
                             res.violation("C17/va/reply-after-unsubscribe", f"{len(replies)} VoiceAssistantResponse sent although the subscription was removed while the handler was pending", case)
                     elif outcome == "pending-then-port":
                         if [(r.port, r.error) for r in replies] != [(6000, False)] * n_start:
@@ -470,8 +493,9 @@ def voice_assistant(ctx: Ctx) -> None:
                     unsubreq = [r["msg"] for r in dconn.received if r["name"] == "SubscribeVoiceAssistantRequest" and not r["msg"].subscribe]
                     if len(unsubreq) != 1:
                         res.violation("C17/va/unsubscribe-request", f"{len(unsubreq)} SubscribeVoiceAssistantRequest(subscribe=False) written", case)
-                    if not gate.done():
-                        gate.cancel()
+                    for g_ in gates:
+                        if not g_.done():
+                            g_.cancel()
 
 
 def camera_across_subscriptions(ctx: Ctx) -> None:
